@@ -44,6 +44,15 @@ type vhStub struct {
 	mu     sync.Mutex
 	pushes [][]*api.ContainerUpdate
 	fail   bool
+	// The NRI adaptation of the runtime holds its lock while a request or event
+	// is being delivered to a plugin, and takes the same lock to serve a
+	// plugin's unsolicited UpdateContainers (containerd/nri pkg/adaptation:
+	// Adaptation.{CreateContainer,UpdateContainer,StopContainer,StateChange,updateContainers}).
+	// A push from inside a handler therefore blocks until the runtime gives up
+	// on the request. inRequest names the sequentially delivered request in
+	// progress; pushedInside collects the handlers that pushed nevertheless.
+	inRequest    string
+	pushedInside []string
 }
 
 func (s *vhStub) Run(context.Context) error   { return nil }
@@ -58,7 +67,24 @@ func (s *vhStub) UpdateContainers(u []*api.ContainerUpdate) ([]*api.ContainerUpd
 		cp = append(cp, proto.Clone(x).(*api.ContainerUpdate))
 	}
 	s.pushes = append(s.pushes, cp)
+	if s.inRequest != "" {
+		s.pushedInside = append(s.pushedInside, s.inRequest)
+	}
 	return nil, nil
+}
+
+func (s *vhStub) enterRequest(name string) {
+	s.mu.Lock()
+	s.inRequest = name
+	s.mu.Unlock()
+}
+
+func (s *vhStub) takePushedInside() []string {
+	s.mu.Lock()
+	defer s.mu.Unlock()
+	p := s.pushedInside
+	s.pushedInside = nil
+	return p
 }
 
 func (s *vhStub) takePushes() [][]*api.ContainerUpdate {
@@ -195,3 +221,10 @@ func (h *vhHarness) close() {
 }
 
 func vhStateFile(dir string) string { return filepath.Join(dir, "cache") }
+
+func (c *vhConfig) policyName() string {
+	if c != nil && c.TA != nil {
+		return "ta"
+	}
+	return "balloons"
+}
